@@ -161,7 +161,7 @@ class Ctx:
         """fork over a list of thunks/values; thunks are called only for the taken alternative"""
         idx = self.choice(name, len(alternatives))
         v = alternatives[idx]
-        return v() if callable(v) and not isinstance(v, Extern) else v
+        return v() if callable(v) and not isinstance(v, (Extern, Obj)) else v
 
     # ------------------------------------------------------------------ inputs
     def _input(self, name, sort, default):
